@@ -210,6 +210,9 @@ def run(prog, rep, tier):
 
     r3 = rep.rule("R11.3", "driver glue honours the deferral outputs and feeds the inputs")
     check_glue(prog, r3)
+    r4 = rep.rule("R11.4", "the families named by FamilyDeferralComplete and by EndDeferral are released (end_deferral_families) where the outputs are applied")
+    check_outputs_applied(prog, r4)
+    check_end_deferral_dedup(prog, r4)
 
 
 def check_glue(prog, r):
@@ -296,3 +299,67 @@ def check_glue(prog, r):
             r.ok("%s fed by %s" % (inp, sorted(short(s) for s in srcs)))
         else:
             r.fail("rustybgpd::event", "input-not-fed:" + inp, "RestartingInput::%s is not fed from %s (fed from: %s)" % (inp, rx, sorted(srcs)), "daemon/src/event/mod.rs")
+
+
+# ---------------------------------------------------------------------------------------------- R11.4
+def check_outputs_applied(prog, r):
+    """process_restarting_outputs turns the state machine's outputs into table operations.  The payload of each of the two
+    releasing outputs must reach an argument of TableManager::end_deferral_families (may-flow over the body, through
+    collections, Option wrappers, closures and spliced helpers): a payload that only feeds a log line leaves the family's
+    `deferring` flag set for ever."""
+    from ..util import taint_flow
+    k = prog.one(r"rustybgpd::event::process_restarting_outputs")
+    fv = view(prog, prog.body_key(k))
+    r.analysed(prog.name(k))
+    sinks = fv.calls(re.compile(r"rustybgpd::table_manager::TableManager::end_deferral_families$"))
+    if not sinks:
+        r.fail(prog.name(k), "outputs-not-applied:all", "process_restarting_outputs never calls end_deferral_families", fv.loc())
+        return
+    for variant in ("FamilyDeferralComplete", "EndDeferral"):
+        src = lambda p, v=variant: any(isinstance(e, dict) and e.get("d") == v for e in (p.get("p") or []))
+        tainted, root, refs = taint_flow(prog, fv, src)
+        ok = False
+        for b, t in sinks:
+            for a in t["args"][1:]:
+                q = a.get("c") or a.get("m")
+                if q is None:
+                    continue
+                if root(q) in tainted or refs.get(q["l"]) in tainted or src(q):
+                    ok = True
+        if ok:
+            r.ok("process_restarting_outputs: the families of %s reach end_deferral_families" % variant)
+        else:
+            r.fail(prog.name(k), "outputs-not-applied:" + variant, "the families carried by RestartingOutput::%s never reach end_deferral_families: their RIBs keep `deferring` set, nothing received "
+                   "meanwhile is ever selected or announced, and later inserts stay suppressed" % variant, fv.loc(sinks[0][0]))
+
+
+def check_end_deferral_dedup(prog, r):
+    """EndDeferral(families) is applied element by element (Table::end_deferral hands out every held-back prefix of the family
+    each time it is called): a family that several helpers still owe End-of-RIB for must appear once.  The list built when the
+    timer expires therefore comes out of a set (HashSet / BTreeSet collect, or sort + dedup)."""
+    from ..util import taint_flow
+    k = prog.one(r"rustybgpd::gr::RestartingDeferral::process")
+    n = 0
+    for kk in prog.with_closures(k):
+        fv = view(prog, kk)
+        aggs = fv.aggregates(re.compile(r"rustybgpd::gr::RestartingOutput"), "EndDeferral")
+        if not aggs:
+            continue
+        is_set = lambda t: bool(re.search(r"HashSet|BTreeSet", (t["f"].get("ga") or "") + (t["f"].get("name") or ""))) or (t["f"].get("name") or "").endswith("::dedup")
+        tainted, root, refs = taint_flow(prog, fv, lambda p: False, call_is_source=is_set)
+        for bi, si, s_ in aggs:
+            n += 1
+            op = s_["rv"]["fields"][0]
+            q = op.get("c") or op.get("m")
+            # an empty list (nothing remains) needs no set
+            e = Renderer(fv, depth=8, through_names=True).operand(op, 8)
+            if e[0] == "call" and re.search(r"Vec::<T>::new$|vec::Vec::new$", e[1]):
+                r.ok("process: EndDeferral(empty)")
+                continue
+            if q is not None and (root(q) in tainted or refs.get(q["l"]) in tainted):
+                r.ok("process: the EndDeferral family list is built from a set (each family once)")
+            else:
+                r.fail(prog.name(k), "end-deferral-duplicates", "the family list of EndDeferral is collected straight from the per-helper pending sets: a family still owed by N helpers is listed N "
+                       "times, and each listing re-announces every held-back prefix of that family", fv.loc(bi))
+    if n == 0:
+        r.unanalysable("RestartingDeferral::process: no EndDeferral construction found")
